@@ -722,7 +722,8 @@ class HTTPConnectionPool(ConnectionPool, RequestMethods):
         if url.startswith("/"):
             url = to_str(_encode_target(url))
         else:
-            url = to_str(parsed_url.url)
+            # An absolute-form target never carries the userinfo or the fragment.
+            url = to_str(parsed_url._replace(auth=None, fragment=None).url)
 
         conn = None
 
